@@ -188,43 +188,51 @@ UNITS.append(dict(
 
 # ------------------------------------------------------------------ add_1 / sub_1 (the inline bodies of mpir.h, forced out of line by mpn/generic/add_1.c)
 def aors_1(op):
+    """two ghost positions: gk (carries g_ci,g_co) and gj (carries g2_ci,g2_co; only when 0 <= gj < n), linked by
+    gj == gk+1 ==> g2_ci == g_co.  Callers that must relate two ADJACENT limbs (mpz_sub_ui: 'size can decrease by at most one
+    limb') choose gj = gk + 1."""
     rel = 'V_ADDREL' if op == 'add' else 'V_SUBREL'
     f = '__gmpn_%s_1' % op
-    # positions: 0 handled before the loops; propagate loop index __gmp_i (carry-in 1 at every position it visits)
-    # ghost: carry into position k is 1 iff the propagate loop visits k.
     REL = lambda r, u, v, ci, co: '%s (%s, %s, %s, %s, %s)' % (rel, r, u, v, ci, co)
-    prop_inv = '''(1 <= __gmp_i && __gmp_i <= __gmp_size && __gmp_c == 1
-        && (gk >= __gmp_i ==> __gmp_src[gk] == V_u)
-        && (gk < __gmp_i ==> (g_ci <= 1 && (gk == 0) == (g_ci == 0) && %s && g_co == 1)))''' % REL('__gmp_dst[gk]', 'V_u', '(gk == 0 ? __gmp_n : 0)', 'g_ci', '1')
-    copy_inv = lambda start: '''(%s <= __gmp_j && __gmp_j <= __gmp_size && __gmp_src != __gmp_dst
-        && ((%s <= gk && gk < __gmp_j) ==> __gmp_dst[gk] == V_u) && (gk >= __gmp_j ==> __gmp_src[gk] == V_u)
-        && (gk < %s ==> __gmp_dst[gk] == V_r))''' % (start, start, start)
+    P = [dict(K='gk', CI='g_ci', CO='g_co', VU='V_u', VR='V_r', G='(gk < __gmp_size)'),
+         dict(K='gj', CI='g2_ci', CO='g2_co', VU='V_uj', VR='V_rj', G='(gj < __gmp_size)')]
+    def prop(p):
+        t = ("(%(G)s ==> ((%(K)s >= __gmp_i ==> __gmp_src[%(K)s] == %(VU)s) "
+             "&& (%(K)s < __gmp_i ==> (%(CI)s <= 1 && (%(K)s == 0) == (%(CI)s == 0) && "
+             + REL('__gmp_dst[%(K)s]', '%(VU)s', '(%(K)s == 0 ? __gmp_n : 0)', '%(CI)s', '1') + " && %(CO)s == 1))))")
+        return t % p
+    prop_inv = '(1 <= __gmp_i && __gmp_i <= __gmp_size && __gmp_c == 1 && ' + ' && '.join(prop(p) for p in P) + ')'
+    def cpy(p, start):
+        t = ("(%(G)s ==> (((START <= %(K)s && %(K)s < __gmp_j) ==> __gmp_dst[%(K)s] == %(VU)s) && (%(K)s >= __gmp_j ==> __gmp_src[%(K)s] == %(VU)s) "
+             "&& (%(K)s < START ==> __gmp_dst[%(K)s] == %(VR)s)))")
+        return t.replace('START', start) % p
+    copy_inv = lambda start: '(%s <= __gmp_j && __gmp_j <= __gmp_size && __gmp_src != __gmp_dst && ' % start + ' && '.join(cpy(p, start) for p in P) + ')'
+    cb0 = '(__gmp_r < __gmp_n)' if op == 'add' else '(__gmp_x < __gmp_n)'
+    cb1 = '(__gmp_r < 1)' if op == 'add' else '(__gmp_x < 1)'
+    both = lambda t: ' '.join(t % p for p in P)
     return dict(
         name='mpn_%s_1' % op, props=['C03', 'C05', 'C04', 'C15'], source='mpn/generic/%s_1.c' % op, contracts=['mpn.h'],
         enforce=[f],
         functions={f: dict(
-            entry='mp_limb_t V_u = __gmp_src[gk]; mp_limb_t V_r; g_ci = 0; g_co = 0;',
+            entry='mp_limb_t V_u = gk < __gmp_size ? __gmp_src[gk] : 0, V_uj = gj < __gmp_size ? __gmp_src[gj] : 0; mp_limb_t V_r, V_rj; g_ci = 0; g_co = 0; g2_ci = 0; g2_co = 0;',
             inserts=[
-                # after position 0 has been stored: record its carry-out (the macro's CB test) and remember dst[gk] for gk == 0
                 (r'if \(\(\(__gmp_r\) < \(\(__gmp_n\)\)\)\)' if op == 'add' else r'if \(\(\(__gmp_x\) < \(\(__gmp_n\)\)\)\)',
-                 r'if (gk == 0) g_co = %s; \g<0>' % ('(__gmp_r < __gmp_n)' if op == 'add' else '(__gmp_x < __gmp_n)')),
-                # carry stops at position __gmp_i - 1 (already incremented)
+                 both('if (%%(K)s == 0) %%(CO)s = %s;' % cb0) + r' \g<0>'),
                 (r'if \(!\(\(__gmp_r\) < \(1\)\)\)' if op == 'add' else r'if \(!\(\(__gmp_x\) < \(1\)\)\)',
-                 r'if (__gmp_i - 1 == gk) g_co = %s; \g<0>' % ('(__gmp_r < 1)' if op == 'add' else '(__gmp_x < 1)')),
-                # the carry has died out: every position from __gmp_i on has carry-in = carry-out = 0
-                (r'\(__gmp_c\) = 0; break;', r'if (gk >= __gmp_i) { g_ci = 0; g_co = 0; } \g<0>'),
+                 both('if (__gmp_i - 1 == %%(K)s) %%(CO)s = %s;' % cb1) + r' \g<0>'),
+                (r'\(__gmp_c\) = 0; break;', both('if (%(K)s >= __gmp_i) { %(CI)s = 0; %(CO)s = 0; }') + r' \g<0>'),
             ],
             loops={
-                0: dict(scalars=['__gmp_i', '__gmp_x', '__gmp_r', '__gmp_c', 'g_ci', 'g_co', 'V_r'],
+                0: dict(scalars=['__gmp_i', '__gmp_x', '__gmp_r', '__gmp_c', 'g_ci', 'g_co', 'g2_ci', 'g2_co', 'V_r', 'V_rj'],
                         slices=[('__gmp_dst', '__gmp_size * 8')],
                         inv=prop_inv, dec='__gmp_size - __gmp_i',
-                        begin='if (__gmp_i == gk) g_ci = 1;',
+                        begin=both('if (__gmp_i == %(K)s) %(CI)s = 1;'),
                         local_to_body=['__gmp_j', 'V_s1']),
                 1: dict(scalars=['__gmp_j'], slices=[('__gmp_dst', '__gmp_size * 8')],
-                        snap='V_r = __gmp_dst[gk < __gmp_i ? gk : 0]; long V_s1 = __gmp_i;',
+                        snap='V_r = __gmp_dst[gk < __gmp_i ? gk : 0]; V_rj = __gmp_dst[gj < __gmp_i ? gj : 0]; long V_s1 = __gmp_i;',
                         inv=copy_inv('V_s1'), dec='__gmp_size - __gmp_j'),
                 2: dict(scalars=['__gmp_j'], slices=[('__gmp_dst', '__gmp_size * 8')],
-                        snap='V_r = __gmp_dst[0];',
+                        snap='V_r = __gmp_dst[0]; V_rj = __gmp_dst[0];',
                         inv=copy_inv('1'), dec='__gmp_size - __gmp_j'),
             })},
         harness=mpn_harness('mpn_%s_1' % op, 'mp_limb_t v; %s (rp, up, n, v);' % f, ptrs=('rp', 'up')),
